@@ -6,6 +6,7 @@ CONSTANTS
  Graph = "dense"
  Trees = "all"
  Cfgs = {0, 1, 2, 4}
+ Wrs = {0, 1}
  Mask = {}
  NamedArgs = {}
  Ignore = {"orphan-loaded"}
